@@ -1,6 +1,8 @@
 package props
 
 import (
+	"go/token"
+
 	"golang.org/x/tools/go/ssa"
 
 	"utilcheck/flow"
@@ -117,20 +119,81 @@ func ruleURN(e *Env) {
 	} else {
 		e.S.Ok(rule, site, "flag", "format flag 0 (plain rendering after the prefix)", e.Pos(fn))
 	}
+	// the ID rendered is the receiver itself
+	recvOK := false
+	if len(call.Call.Args) > 1 && len(fn.Params) > 0 {
+		a := call.Call.Args[1]
+		if a == ssa.Value(fn.Params[0]) {
+			recvOK = true
+		} else if ld, ok := a.(*ssa.UnOp); ok && ld.Op == token.MUL {
+			if al, ok := ld.X.(*ssa.Alloc); ok {
+				n, onlyRecv := 0, true
+				for _, r := range *al.Referrers() {
+					if st, ok := r.(*ssa.Store); ok && st.Addr == ssa.Value(al) {
+						n++
+						if st.Val != ssa.Value(fn.Params[0]) {
+							onlyRecv = false
+						}
+					}
+				}
+				recvOK = n == 1 && onlyRecv
+			}
+		}
+	}
+	if recvOK {
+		e.S.Ok(rule, site, "receiver", "the ID handed to the formatter is the receiver", e.Pos(fn))
+	} else {
+		e.S.Bad(rule, site, "receiver", "the ID handed to the formatter is not the receiver unchanged: URN renders another value", e.posOf(call), "")
+	}
+	// nothing writes into the prefix buffer between its creation and the call
+	if buf := call.Call.Args[0]; buf.Referrers() != nil {
+		touched := ""
+		copies := 0
+		for _, r := range *buf.Referrers() {
+			switch x := r.(type) {
+			case *ssa.IndexAddr:
+				touched = "an element of the prefix buffer is addressed (" + e.posOf(x) + ")"
+			case *ssa.Slice:
+				touched = "the prefix buffer is re-sliced (" + e.posOf(x) + ")"
+			case *ssa.Call:
+				if bi, isB := x.Call.Value.(*ssa.Builtin); isB && bi.Name() == "copy" && x.Call.Args[0] == buf {
+					copies++ // the one copy of the make+copy idiom (its source is checked above)
+					if copies > 1 {
+						touched = "the prefix buffer is written more than once before the formatter"
+					}
+					continue
+				}
+				if bi, isB := x.Call.Value.(*ssa.Builtin); isB && (bi.Name() == "len" || bi.Name() == "cap") {
+					continue
+				}
+				if x != call {
+					touched = "the prefix buffer is handed to " + x.Call.String() + " before the formatter"
+				}
+			}
+		}
+		if touched != "" {
+			e.S.Bad(rule, site, "prefix-literal", "the prefix is not used as written: "+touched, e.Pos(fn), "")
+		}
+	}
 	urnResult(e, rule, site, fn, call)
 }
 
 // urnResult: URN returns the formatter's buffer converted to string.
 func urnResult(e *Env, rule, site string, fn *ssa.Function, call *ssa.Call) {
 	// result: string(b) of result #0
-	okRet := false
-	for _, r := range flow.Returns(fn) {
-		if len(r.Results) == 1 {
-			if ex, ok := flow.Strip(r.Results[0]).(*ssa.Extract); ok && ex.Tuple == ssa.Value(call) && ex.Index == 0 {
-				okRet = true
-			}
+	okRet, n := true, 0
+	for _, r := range flow.Returns(fn) { // every return, not just one of them
+		n++
+		rv := flow.ReturnValues(r)
+		if len(rv) != 1 {
+			okRet = false
+			continue
+		}
+		if ex, ok := flow.Strip(rv[0]).(*ssa.Extract); !ok || ex.Tuple != ssa.Value(call) || ex.Index != 0 {
+			okRet = false
 		}
 	}
+	okRet = okRet && n > 0
 	if okRet {
 		e.S.Ok(rule, site, "result", "returns the formatter's buffer converted to string", e.Pos(fn))
 	} else {
